@@ -47,6 +47,7 @@ package main
 import (
 	"bytes"
 	"fmt"
+	"io"
 	"strings"
 	"time"
 
@@ -262,6 +263,68 @@ func body(fam t1fonts.Family) func(c *mc.Ctx, item int) mc.Verdict {
 	}
 }
 
+// afterFailureBody: what a write produces does not depend on an earlier write
+// having failed: for every output form and every Write call index j of that
+// form, a write of another font to a writer that fails from call j on is
+// followed by a write of the font under test, which must give exactly the bytes
+// it gives in a fresh process state (taken before any failure).
+type failFrom struct{ calls, from int }
+
+func (w *failFrom) Write(p []byte) (int, error) {
+	w.calls++
+	if w.calls > w.from {
+		return 0, fmt.Errorf("injected write fault")
+	}
+	return len(p), nil
+}
+
+func writeForm(f *type1.Font, form int, w io.Writer) error {
+	if form == 4 {
+		_, _, err := f.WritePDF(w)
+		return err
+	}
+	return f.Write(w, &type1.WriterOptions{Format: formFormats[form]})
+}
+
+func afterFailureFonts() []*type1.Font {
+	long := t1fonts.Base()
+	long.Glyphs["A"].Cmds = t1fonts.PathOfLength(300, 2)
+	return []*type1.Font{t1fonts.Base(), long}
+}
+
+var afterFailureRefs = map[[2]int][]byte{}
+
+func afterFailureBody(c *mc.Ctx, item int) mc.Verdict {
+	form, fi := item%len(formNames), item/len(formNames)
+	font := afterFailureFonts()[fi]
+	ref, ok := afterFailureRefs[[2]int{form, fi}]
+	if !ok {
+		var b bytes.Buffer
+		if err := writeForm(font, form, &b); err != nil {
+			return mc.Fail("C08:write-error", err.Error())
+		}
+		ref = b.Bytes()
+		afterFailureRefs[[2]int{form, fi}] = ref
+	}
+	// number of Write calls of the failing write
+	probe := &failFrom{from: 1 << 30}
+	other := afterFailureFonts()[1-fi]
+	writeForm(other, form, probe)
+	for j := 0; j <= probe.calls; j++ {
+		writeForm(other, form, &failFrom{from: j})
+		var b bytes.Buffer
+		err := writeForm(font, form, &b)
+		c.Step()
+		if err != nil || !bytes.Equal(b.Bytes(), ref) {
+			what := fmt.Sprintf("form %s, font %d written after a write of another font that failed from Write call %d (of %d) on", formNames[form], fi, j+1, probe.calls)
+			v := mc.Fail("C08:write-after-failed-write", fmt.Sprintf("%s: error %v, %d bytes instead of %d", what, err, b.Len(), len(ref)))
+			v.Render = what
+			return v
+		}
+	}
+	return mc.Pass("same-bytes-after-every-failure", true)
+}
+
 func main() {
 	mc.Main(mc.Program{
 		Property: "C08",
@@ -294,6 +357,14 @@ func main() {
 					CrashKey: func(item int) string { return "C08:crash:" + f.Name },
 				})
 			}
+			out = append(out, mc.Family{
+				Name:     "write-after-failed-write",
+				Items:    len(formNames) * 2,
+				Body:     afterFailureBody,
+				Budget:   budget,
+				Rule:     "item = (output form of 5) x (font: small, one 300-segment glyph): for EVERY Write call index j of that form, another font is written to a writer that fails from call j on, then the font under test is written to a healthy writer: the bytes must equal those written before any failure; non-trivial = all",
+				CrashKey: func(int) string { return "C08:crash:write-after-failed-write" },
+			})
 			return out
 		},
 	})
